@@ -121,8 +121,12 @@ pub fn run(tier: Tier, seed: u64) -> i32 {
                 lit_row(&|j| (j as i64 + 1) ^ 12),
                 lit_row(&|j| (j as i64 + 1) ^ 14),
                 lit_row(&|j| (j as i64 + 1) ^ 15),
-                zx_row,
+                zx_row.clone(),
                 lit_row(&|j| j as i64 + 5),
+                // Z next to the number -1 (all ones on every width), in both directions
+                zx_row.clone(),
+                Stmt::Row((0..ncol).map(|_| Entry::Paren(bin(BinOp::Sub, lit(0), lit(1)))).collect()),
+                zx_row,
             ];
             let mut body = body;
             if declared {
@@ -153,8 +157,8 @@ pub fn run(tier: Tier, seed: u64) -> i32 {
                             _ => {}
                         }
                     }
-                    let script: Vec<Step> = vec![Step::Ans(answer.clone()); 11];
-                    let mut opts = RunOpts::new(11);
+                    let script: Vec<Step> = vec![Step::Ans(answer.clone()); 14];
+                    let mut opts = RunOpts::new(14);
                     opts.continue_after_error = true;
                     let obs2 = run_loaded(&tc2, &sigs2, true, &script, &opts);
                     let r2 = ref_run(&prog, &sigs2, &script);
@@ -173,9 +177,9 @@ pub fn run(tier: Tier, seed: u64) -> i32 {
                 if plan == 9 && reported.len() == answer.len() {
                     continue;
                 }
-                let script: Vec<Step> = (0..11).map(|c| if plan == 9 { Step::Ans(reported.clone()) } else if plan > 0 && c == plan { Step::Fault(7) } else { Step::Ans(answer.clone()) }).collect();
+                let script: Vec<Step> = (0..14).map(|c| if plan == 9 { Step::Ans(reported.clone()) } else if plan > 0 && c == plan { Step::Fault(7) } else { Step::Ans(answer.clone()) }).collect();
                 st.evals += 1;
-                let mut opts = RunOpts::new(11);
+                let mut opts = RunOpts::new(14);
                 opts.after_end = 0;
                 opts.continue_after_error = true;
                 let obs = match &tc {
